@@ -20,6 +20,8 @@ SETS = {
     '2x2-full': [{'H': 2}, {'O': 2}],
     '3x2-tall': [{'H': 2}, {'O': 2}, {'H': 2, 'O': 1}],
     '3x3-full': [{'H': 2}, {'C': 1, 'O': 1}, {'C': 1, 'O': 2}],
+    '1x1-fractional': [{'H': 2.5}],
+    '2x2-fractional': [{'H': 0.5, 'O': 1.5}, {'H': 2, 'O': 0.25}],
     '2x2-deficient': [{'H': 2, 'O': 1}, {'H': 4, 'O': 2}],
     '3x2-deficient': [{'H': 2, 'O': 2}, {'H': 1, 'O': 1}, {'H': 3, 'O': 3}],
 }
@@ -178,6 +180,10 @@ def h_adjust(ctx, setname, descriptor):
     for q in ('HoRT', 'GoRT', 'SoR', 'CpoR'):
         ctx.eq('use_references=False removes the adjustment from %s exactly' % q, getattr(sp, 'get_' + q)(T=T, use_references=False),
                getattr(m, 'get_' + q)(T=T))
+    # conditions addressed to the species by name reach the reference adjustment like every other contribution
+    T2 = ctx.real('T_for_the_species', 50, 5000)
+    ctx.eq('a temperature given in <name>_kwargs is the one the adjustment is scaled with',
+           sp.get_HoRT(T=T, target_kwargs={'T': T2}), m.get_HoRT(T=T2) + want * T_ref / T2)
     ctx.eq('References.get_HoRT without T is the offset sum', R.get_HoRT(descriptors=dict(counts)), want)
     # linearity in composition
     twice = {k: 2 * v for k, v in counts.items()}
